@@ -21,7 +21,11 @@ const (
 
 // Age classes relative to the configured maximum (1h): the boundary itself is a wall-clock comparison inside the
 // engine, so ±30s margins are used instead of the instant.
-var ageShift = [...]time.Duration{0, time.Hour - 30*time.Second, time.Hour + 30*time.Second, 10 * time.Hour}
+var ageShift = [...]time.Duration{0, time.Hour - 30*time.Second, time.Hour + 30*time.Second, 10 * time.Hour, 10 * time.Hour}
+
+// AgePlanRowOnly: only the plan object's own times are shifted (by 10*max); every other object keeps its fresh times,
+// so the plan's "most recent recorded activity" is fresh and it must be resumed.
+const AgePlanRowOnly = 4
 
 const MaxLastUpdate = time.Hour
 
@@ -134,12 +138,37 @@ func RunStoreCase(c *StoreCase, res *vprop.Result) {
 			}
 			n = first + sp.Prefix*(last-first)/1000
 		}
-		d := ageShift[sp.Age%len(ageShift)]
+		age := sp.Age % len(ageShift)
+		d := ageShift[age]
 		for _, w := range ws[:n] {
-			kept = append(kept, shiftWrite(w, d))
+			switch {
+			case age != AgePlanRowOnly:
+				kept = append(kept, shiftWrite(w, d))
+			case w.Create:
+				c := *w
+				c.Plan = CopyPlan(w.Plan)
+				c.Plan.SubmitTime = c.Plan.SubmitTime.Add(-d)
+				kept = append(kept, &c)
+			case w.Tag == ptag:
+				kept = append(kept, shiftWrite(w, d))
+			default:
+				kept = append(kept, w)
+			}
 		}
 		snap := SnapshotAt(ws[:n])
-		exp[pi] = expect{class: sp.Class, stale: sp.Age%len(ageShift) >= 2, durable: snap.status(ptag)}
+		stale := age == 2 || age == 3
+		if age == AgePlanRowOnly {
+			// fresh activity needs at least one durable write of an object other than the plan row; otherwise the plan
+			// row's (old) start is the most recent activity and the plan is legitimately stale
+			other := false
+			for _, w := range ws[:n] {
+				if !w.Create && w.Tag != ptag && (!w.State.Start.IsZero() || !w.State.End.IsZero()) {
+					other = true
+				}
+			}
+			stale = !other
+		}
+		exp[pi] = expect{class: sp.Class, stale: stale, durable: snap.status(ptag)}
 	}
 	reg := NewRegistry()
 	v, created, err := RebuildVault(reg, kept)
